@@ -22,7 +22,7 @@ REQUIRED_CLASSES = ('obj:AtomGro', 'obj:Residue', 'obj:Molecule', 'obj:Molecule-
                     'src:shipped', 'op:copy', 'op:deep_copy', 'op:move', 'op:move_to', 'op:rotate', 'op:set-positions',
                     'op:set-velocities', 'op:set-velocities-none', 'op:set-ids', 'op:set-resids', 'op:view-index',
                     'op:view-iterate', 'op:view-inplace', 'op:shared-array', 'op:rename-deep-copy', 'op:atoms-property',
-                    'assign:int64', 'assign:strided', 'assign:fortran', 'assign:whole-residue-through-views')
+                    'src:alignment-reassigned', 'assign:int64', 'assign:strided', 'assign:fortran', 'assign:whole-residue-through-views')
 RULE = ('operation histories (<= 40 operations over <= 8 live objects) drawn from {copy, deep_copy, move, move_to, rotate, '
         'set positions/velocities(None)/atom numbers/residue numbers, view assignment by index and by iteration, the same '
         'ndarray handed to two setters, rename on deep copies, mutate what the atoms property returned}. Non-trivial: the '
@@ -203,8 +203,27 @@ def run_case(ctx, case):
     elif src == 'alignment':
         m = memory_molecule(rng, rng.random() < 0.5)
         add(m, 'molecule given to Alignment', True)
-        ali = Alignment(start=m)
-        add(ali.start, 'Alignment.start', False)
+        if rng.random() < 0.5:
+            ali = Alignment(start=m)
+            add(ali.start, 'Alignment.start', False)
+        else:
+            # a complete alignment (both molecules set) whose start / end is assigned again with another conformation of
+            # the same molecule: the object stored is again an isolated copy of what the user handed over
+            other = memory_molecule(rng, rng.random() < 0.5)
+            ali = Alignment(m, other)
+            again = m.copy()
+            again.move(rng.normal(size=3))
+            add(again, 'molecule assigned again to a complete Alignment', False)
+            if rng.random() < 0.5:
+                ali.start = again
+                add(ali.start, 'Alignment.start after re-assignment', False)
+            else:
+                ali.end = other
+                ali.start = again
+                ali.end = other
+                add(other, 'molecule assigned again as end', False)
+                add(ali.end, 'Alignment.end after re-assignment', False)
+            ctx.hit('src:alignment-reassigned')
         ctx.hit('src:alignment')
     elif src == 'residue':
         m = memory_molecule(rng, True)
